@@ -16,6 +16,7 @@ from xdsl.pattern_rewriter import (
     op_type_rewrite_pattern,
 )
 from xdsl.rewriter import InsertPoint
+from xdsl.traits import is_side_effect_free
 from xdsl.utils.hints import isa
 
 
@@ -58,9 +59,9 @@ class ChangeForStep(RewritePattern):
         if step == 1:
             return
 
-        # otherwise, replace op with a new one that uses step 1 and ub = ub // step
+        # otherwise, replace op with a new one that uses step 1 and ub = ceil(ub / step)
         new_step = ConstantOp.from_int_and_width(1, IndexType())
-        new_ub = ConstantOp.from_int_and_width(ub // step, IndexType())
+        new_ub = ConstantOp.from_int_and_width(-(-ub // step), IndexType())
         new_for = ForOp(
             op.lb,
             new_ub,
@@ -104,6 +105,14 @@ class MergeForLoops(RewritePattern):
 
         # lb must be 0 and step must be 1:
         if lb != 0 or lb_parent != 0 or step != 1 or step_parent != 1:
+            return
+
+        # all other operations in the parent loop will be executed for every iteration
+        # of the merged loop, so this is only possible if they don't have side effects
+        if not all(
+            other_op is op or isinstance(other_op, YieldOp) or is_side_effect_free(other_op)
+            for other_op in parent.body.block.ops
+        ):
             return
 
         # the new ub of the parent op is ub * ub_parent
